@@ -239,4 +239,86 @@ example : Spec.readColumnSpec 4 3 (Spec.intColumnBitsWith 1 [some 5, none, some 
     Spec.readColumnSpec 4 3 (Spec.intColumnBitsWith 3 [some 5, none, some 5] 4).dropLast = .error .bitRead ∧
     Spec.readColumnSpec 4 3 (ones 4 ++ toBits 6 2) = .error .other := by decide
 
+/-- Character columns: what the encoder writes for a column of `nbytes`-byte strings — any mix of
+    equal, different and missing (`none`) entries, strings of any length (truncated or blank-padded
+    by `padBytes`) — is read back by the decoder as the canonical strings (`Spec.strCanon`: padded
+    string, `nbytes` × 0xFF for missing) and the reader stops exactly behind the column.
+    The increment length has to fit the 6-bit count when increments are written (`h63`).
+    An all-equal column of NUL bytes comes back as the NULs (the decoder blanks a NUL base only
+    when increments follow — see the example). -/
+theorem C05_string_column_roundtrip (nbytes : Nat) (allEqual : Bool)
+    (strs : List (Option (List UInt8))) (suf : Bits)
+    (h63 : allEqual = false → nbytes ≤ 63)
+    (heq : allEqual = true → ∀ s ∈ strs, s = strs.headD none) :
+    ∃ bits, encStringColumn allEqual strs nbytes = .ok bits ∧
+      readStringColumn nbytes strs.length (bits ++ suf) =
+        .ok (strs.map (Spec.strCanon nbytes), suf) := by
+  have h06 : fieldUInt 0 6 = .ok (toBits 6 0) := rfl
+  cases allEqual with
+  | true =>
+    have hall := heq rfl
+    have hrep : strs.map (Spec.strCanon nbytes) =
+        List.replicate strs.length (Spec.strCanon nbytes (strs.headD none)) := by
+      rw [List.eq_replicate_iff]
+      refine ⟨by simp, fun x hx => ?_⟩
+      obtain ⟨s, hs, rfl⟩ := List.mem_map.mp hx
+      rw [hall s hs]
+    refine ⟨bytesToBits (Spec.strCanon nbytes (strs.headD none)) ++ toBits 6 0, ?_, ?_⟩
+    · simp only [encStringColumn, if_true, catBits, h06, List.append_nil]
+      cases strs.headD none with
+      | none => simp only [fieldBytes_none]
+      | some b => simp only [fieldBytes_some]
+    · simp only [readStringColumn, List.append_assoc,
+        readBytes_of_length nbytes _ _ (strCanon_length nbytes _),
+        readUInt_toBits 6 0 suf (by omega) (by omega), if_true, hrep]
+  | false =>
+    have hk := h63 rfl
+    have h6 : nbytes < 2 ^ 6 := by simp; omega
+    have hz : bytesToBits (padBytes (List.replicate nbytes (0 : UInt8)) nbytes) =
+        bytesToBits (List.replicate nbytes 0) := by rw [padBytes_of_length _ _ (by simp)]
+    have hbase : fieldBytes (List.replicate nbytes 0) nbytes =
+        .ok (bytesToBits (List.replicate nbytes 0)) := by
+      simp only [fieldBytes, writeBytes, List.nil_append, hz]
+    by_cases hn0 : nbytes = 0
+    · subst hn0
+      refine ⟨toBits 6 0, ?_, ?_⟩
+      · simp only [encStringColumn, Bool.false_eq_true, if_false, if_true, catBits, hbase]
+        rfl
+      · have hrep : strs.map (Spec.strCanon 0) = List.replicate strs.length [] := by
+          rw [List.eq_replicate_iff]
+          refine ⟨by simp, fun x hx => ?_⟩
+          obtain ⟨s, _, rfl⟩ := List.mem_map.mp hx
+          exact List.eq_nil_of_length_eq_zero (strCanon_length 0 s)
+        have hrb : readBytes 0 (toBits 6 0 ++ suf) = .ok ([], toBits 6 0 ++ suf) := rfl
+        simp only [readStringColumn, hrb, readUInt_toBits 6 0 suf (by omega) (by omega), if_true, hrep]
+    · refine ⟨bytesToBits (List.replicate nbytes 0) ++ toBits 6 nbytes ++
+          strs.flatMap (fun s => bytesToBits (Spec.strCanon nbytes s)), ?_, ?_⟩
+      · simp only [encStringColumn, Bool.false_eq_true, if_false, hn0, catBits, hbase,
+          fieldUInt_nat nbytes 6 (by omega) h6]
+        rw [catBits_map_ok strs _ (fun s => bytesToBits (Spec.strCanon nbytes s))
+          (fun s _ => by
+            cases s with
+            | none => exact fieldBytes_none nbytes
+            | some b => exact fieldBytes_some nbytes b)]
+        simp only [List.append_assoc]
+      · have hall0 : (List.replicate nbytes (0 : UInt8)).all (· == 0) = true := by simp
+        have hfm : strs.flatMap (fun s => bytesToBits (Spec.strCanon nbytes s)) =
+            (strs.map (Spec.strCanon nbytes)).flatMap bytesToBits := by
+          rw [List.flatMap_map]
+        have hrs := readStrings_enc nbytes [] (strs.map (Spec.strCanon nbytes)) suf
+          (fun s hs => by obtain ⟨t, _, rfl⟩ := List.mem_map.mp hs; exact strCanon_length nbytes t)
+        simp only [List.length_map, List.nil_append, List.map_id'] at hrs
+        simp only [readStringColumn, List.append_assoc,
+          readBytes_of_length nbytes _ _ (List.length_replicate ..),
+          readUInt_toBits 6 nbytes _ (by omega) h6, hn0, if_false, hall0, if_true, hfm, hrs]
+
+/-- non-vacuity: equal, different, short, long and missing entries; an all-equal column of NUL
+    bytes is returned as the NULs -/
+example : ∃ bits, encStringColumn false [some [65, 66], none, some [65], some [65, 66, 67]] 2 = .ok bits ∧
+    readStringColumn 2 4 (bits ++ [true]) = .ok ([[65, 66], [255, 255], [65, 32], [65, 66]], [true]) :=
+  ⟨_, rfl, by decide⟩
+example : ∃ bits, encStringColumn true [some [0, 0], some [0, 0]] 2 = .ok bits ∧
+    readStringColumn 2 2 (bits ++ [true]) = .ok ([[0, 0], [0, 0]], [true]) :=
+  ⟨_, rfl, by decide⟩
+
 end Bufr
